@@ -30,7 +30,7 @@ from . import util_stop as U
 META = {
     "rule": "graph: BFS over all reachable controller states (full __dict__ restored) x 6 letters (+reset) to depth "
             "12/16 for every configuration in (steps 1..6 x patience 1..4) plus steps in {0,-1,7,12,13,50} / patience in "
-            "{0,5,6,12,13}; trie: all 6^L literal sequences (L = 5 quick .. 8 thorough) for the 24 core configurations; "
+            "{0,5,6,12,13}; trie: all 6^L literal sequences for the 24 core configurations (quick: L=5 sop / 4 rtb for all, L=6 / 5 for a random subset; thorough: L=6..7 sop / 5 rtb for all, L=8 / 6 for a subset); "
             "num: random walks over magnitude ladders with exact-boundary moves (ratio == decreasing, loss == tol, 0, "
             "negative), dtypes f32/f64/int/python float, batch shapes up to rank 2, resets and post-stop steps; "
             "drv: scripted + genuine optimizers/LQR/kNN, 1..3 calls per object. A case is non-trivial when it has >= 2 "
@@ -1323,12 +1323,21 @@ def run(ctx: Ctx):
     depth = 12 if q else 16
     run_graph(ctx, "sop", core + extra, depth)
     run_graph(ctx, "rtb", core + extra, depth)
-    run_trie(ctx, "sop", core, 5 if q else 7)
-    run_trie(ctx, "sop", rng.sample(core, 6 if q else 3), 6 if q else 8)
-    run_trie(ctx, "rtb", core, 4 if q else 6)
-    run_trie(ctx, "rtb", rng.sample(core, 4 if q else 2), 5 if q else 7)
-    run_num_rtb(ctx, ctx.pick(1200, 8000), 40 if q else 150)
-    run_num_sop(ctx, ctx.pick(1200, 8000), 40 if q else 150)
+    if q:
+        run_trie(ctx, "sop", core, 5)
+        run_trie(ctx, "sop", rng.sample(core, 6), 6)
+        run_trie(ctx, "rtb", core, 4)
+        run_trie(ctx, "rtb", rng.sample(core, 4), 5)
+    else:
+        sh = list(core)
+        rng.shuffle(sh)
+        run_trie(ctx, "sop", sh[:12], 7)
+        run_trie(ctx, "sop", sh[12:], 6)
+        run_trie(ctx, "sop", rng.sample(core, 1), 8)
+        run_trie(ctx, "rtb", core, 5)
+        run_trie(ctx, "rtb", sh[:8], 6)
+    run_num_rtb(ctx, ctx.pick(1200, 3000), 40 if q else 150)
+    run_num_sop(ctx, ctx.pick(1200, 3000), 40 if q else 150)
     run_drv_optimize(ctx, ctx.pick(600, 5000))
     run_drv_optimize_real(ctx, ctx.pick(30, 200))
     run_drv_mpc(ctx, ctx.pick(300, 2000), ctx.pick(15, 100))
@@ -1338,7 +1347,7 @@ def run(ctx: Ctx):
 def search(ctx: Ctx):
     """harder hunt on the real code with the property's own oracles (no model involved)"""
     n0 = len(ctx.failures)
-    for L, kind in ((7, "sop"), (6, "rtb")):
+    for L, kind in ((6, "sop"), (5, "rtb")):
         for cfg in core_configs():
             p = {"kind": "trie", "ctl": kind, "steps": cfg[0], "patience": cfg[1], "L": L, "has_reject": True,
                  "as_tensor": False, "d": 0.125, "dtype": "float64", "shape": [2], "vseed": 7}
